@@ -103,7 +103,7 @@ func (w *World) envStep(ex *Exec) {
 	w.envSteps++
 	nd := ex.NewInvDB(w.schema, w.slots, fmt.Sprintf("env%d", w.envSteps))
 	ex.addPC(ex.Inv(nd, w.now))
-	for _, g := range ex.GParts(pre, nd) {
+	for _, g := range ex.GPartsSince(pre, nd, w.lastObs) {
 		ex.addPC(g.t)
 	}
 	w.db = nd
@@ -147,6 +147,7 @@ func (ex *Exec) submit(c *CoroObj, sub Value) (Value, Value) {
 		cv, ev := ex.processStore(sub, subT)
 		w.curCoro = prevCoro
 		rec.post = w.snap(ex)
+		w.lastObs = w.now
 		if w.autoO2 != "" && dbChanged(w.snaps[rec.pre], w.snaps[rec.post]) {
 			ex.assertGroup(append(ex.InvParts(w.snaps[rec.post], w.now), ex.GParts(w.snaps[rec.pre], w.snaps[rec.post])...), w.autoO2)
 		}
